@@ -168,3 +168,117 @@ func Gen(t *rapid.T) Case {
 	}
 	return c
 }
+
+// ---------------------------------------------------------------- an expiry must not outlive its transaction
+//
+// A retention timer belongs to one transaction.  Here a request is answered, its duplicate re-answered inside the window,
+// the window elapses, the same (address, sequence number) is used for a new request - and a duplicate of that new request
+// is sent after the moment a second, stray timer of the first transaction would fire (first duplicate + window) but well
+// inside the new transaction's own window.  It must be re-answered with the new request's response, octet for octet,
+// without being executed.
+
+type StaleCase struct {
+	RetransMs  int    `json:"retrans_ms"`
+	MaxRetrans uint8  `json:"max_retrans"`
+	DupPct     int    `json:"dup_pct"` // when the first duplicate is sent, in % of the window after the first copy
+	Peer       int    `json:"peer"`
+	Seq        uint32 `json:"seq"`
+}
+
+// RunStale returns a violation, or skipped != "" when the machine was too slow for the schedule to mean anything.
+func RunStale(c StaleCase) (v *vcore.Violation, skipped string) {
+	d := stack.NewModelDriver()
+	st, err := stack.New(stack.Opts{Driver: d, Nodes: 2, Extra: 1, Retrans: time.Duration(c.RetransMs) * time.Millisecond, MaxRetrans: c.MaxRetrans})
+	if err != nil {
+		panic(fmt.Sprintf("infrastructure: %v", err))
+	}
+	defer func() {
+		if cerr := st.Close(); cerr != nil && v == nil {
+			v = vcore.Violatef("stop-hang", "%v", cerr)
+		}
+		if st.Dead != nil && v == nil {
+			v = vcore.Violatef(st.Dead.Key, "UPF fatal exit: %.600s", st.Dead.Msg)
+		}
+	}()
+	r := stack.NewRunner(st, d)
+	w := time.Duration(c.RetransMs) * time.Millisecond * time.Duration(c.MaxRetrans+1)
+	node := c.Peer
+	if node >= 100 {
+		node = 0
+	}
+	if o := r.Step(stack.Op{Kind: "assoc", Peer: node, Node: node, Sess: -1, Seq: 0x5000}); o.Dead != nil || o.Stuck {
+		return vcore.Violatef("prefix", "association failed"), ""
+	}
+	est := func(cp uint64) []byte {
+		b, err := r.Build(stack.Op{Kind: "est", Peer: c.Peer, Node: node, Sess: -1, CP: cp,
+			Rules: []stack.RuleOp{{Verb: "create", Kind: "FAR", ID: 1, Action: 2, HasAction: true}}}, c.Seq)
+		if err != nil {
+			panic(err)
+		}
+		return b
+	}
+	answer := func(o *stack.Obs) []byte {
+		for _, dg := range o.Rx[c.Peer] {
+			if m, err := message.Parse(dg.B); err == nil && m.MessageType() == message.MsgTypeSessionEstablishmentResponse {
+				return dg.B
+			}
+		}
+		return nil
+	}
+	a := est(0xa1)
+	t0 := time.Now()
+	o := r.SendRaw(c.Peer, a)
+	ra := answer(o)
+	if o.Dead != nil || ra == nil {
+		return vcore.Violatef("prefix", "first establishment not answered"), ""
+	}
+	at := func(frac float64) { // sleep until t0 + frac*w
+		if dl := time.Until(t0.Add(time.Duration(float64(w) * frac))); dl > 0 {
+			time.Sleep(dl)
+		}
+	}
+	dup := float64(c.DupPct) / 100
+	at(dup)
+	o = r.SendRaw(c.Peer, a)
+	if time.Since(t0) > w*8/10 {
+		return nil, "first duplicate sent too late"
+	}
+	if rd := answer(o); rd == nil || string(rd) != string(ra) || len(o.Calls) > 0 {
+		return vcore.Violatef("dup-answer-differs", "duplicate inside the window (%v of %v) answered %x, first copy %x, data-plane calls %d", time.Since(t0).Round(time.Millisecond), w, rd, ra, len(o.Calls)), ""
+	}
+	// the window has elapsed: the key is free for a new request
+	at(1.15)
+	b := est(0xb2)
+	var rb []byte
+	var t1 time.Time
+	for try := 0; try < 4 && rb == nil; try++ {
+		t1 = time.Now()
+		o = r.SendRaw(c.Peer, b)
+		if x := answer(o); x != nil && string(x) != string(ra) {
+			rb = x
+		} else {
+			time.Sleep(w / 10) // the first transaction's timer is late
+		}
+	}
+	if rb == nil {
+		return vcore.Violatef("window-never-elapses", "a new request under (socket %d, sequence %d) %v after the first copy (window %v) is still answered from the old transaction", c.Peer, c.Seq, time.Since(t0).Round(time.Millisecond), w), ""
+	}
+	d.TakeCalls()
+	// after first-duplicate + window (+15 %), and no later than 70 % into the new transaction's window
+	at(dup + 1.15)
+	if time.Since(t1) > w*7/10 {
+		return nil, "schedule slipped: the new transaction is too old for a safe duplicate"
+	}
+	o = r.SendRaw(c.Peer, b)
+	rd := answer(o)
+	if rd == nil || string(rd) != string(rb) || len(o.Calls) > 0 {
+		return vcore.Violatef("dup-executed-after-stray-expiry", "window %v: request A at 0, its duplicate at %d %%, new request B under the same (socket %d, sequence %d) at %v, duplicate of B %v later: answered %x (B was answered %x), %d data-plane calls - B's transaction was gone although its window had not elapsed",
+			w, c.DupPct, c.Peer, c.Seq, t1.Sub(t0).Round(time.Millisecond), time.Since(t1).Round(time.Millisecond), rd, rb, len(o.Calls)), ""
+	}
+	return nil, ""
+}
+
+func GenStale(t *rapid.T) StaleCase {
+	return StaleCase{RetransMs: 300, MaxRetrans: 2, DupPct: rapid.SampledFrom([]int{25, 45, 60}).Draw(t, "dup_pct"),
+		Peer: rapid.SampledFrom([]int{0, 1, 100}).Draw(t, "peer"), Seq: rapid.SampledFrom([]uint32{1, 7, 1<<24 - 1}).Draw(t, "seq")}
+}
